@@ -79,6 +79,44 @@ func init() {
 			return fr.havocVal(resT, "panic")
 		}
 	}
+	// --- time: instants as nanoseconds since the zero time (ghost function time_nanos); Duration
+	// arithmetic is assumed not to overflow ---------------------------------------------------
+	nanos := func(c *FnCtx, t string) string {
+		c.smt.declareFun("time_nanos", []string{c.sortOf(c.eng.timeType())}, "Int")
+		return app("time_nanos", t)
+	}
+	freshTime := func(fr *Frame, resT types.Type, n string) Val {
+		c := fr.c
+		r := fr.havocVal(resT, "time")
+		c.smt.assume(eq(nanos(c, r.Term), n), "time model")
+		return r
+	}
+	externalModels["(time.Time).Add"] = func(fr *Frame, callee *ssa.Function, args []Val, resT types.Type, st *State, reach string, pos token.Pos) Val {
+		c := fr.c
+		return freshTime(fr, resT, app("+", nanos(c, c.termOf(args[0])), c.termOf(args[1])))
+	}
+	externalModels["(time.Time).Sub"] = func(fr *Frame, callee *ssa.Function, args []Val, resT types.Type, st *State, reach string, pos token.Pos) Val {
+		c := fr.c
+		return Val{T: resT, Term: c.smt.define("tsub", "Int", app("-", nanos(c, c.termOf(args[0])), nanos(c, c.termOf(args[1]))))}
+	}
+	externalModels["(time.Time).Truncate"] = func(fr *Frame, callee *ssa.Function, args []Val, resT types.Type, st *State, reach string, pos token.Pos) Val {
+		c := fr.c
+		n, d := nanos(c, c.termOf(args[0])), c.termOf(args[1])
+		return freshTime(fr, resT, ite(app(">", d, "0"), app("-", n, app("mod", n, d)), n))
+	}
+	externalModels["(time.Time).UnixNano"] = func(fr *Frame, callee *ssa.Function, args []Val, resT types.Type, st *State, reach string, pos token.Pos) Val {
+		c := fr.c
+		c.smt.declareFun("time_unix_epoch", nil, "Int")
+		return Val{T: resT, Term: c.smt.define("unixnano", "Int", wrapTo(types.Typ[types.Int64], app("-", nanos(c, c.termOf(args[0])), "time_unix_epoch")))}
+	}
+	cmpTime := func(op string) extModel {
+		return func(fr *Frame, callee *ssa.Function, args []Val, resT types.Type, st *State, reach string, pos token.Pos) Val {
+			c := fr.c
+			return Val{T: resT, Term: app(op, nanos(c, c.termOf(args[0])), nanos(c, c.termOf(args[1])))}
+		}
+	}
+	externalModels["(time.Time).After"] = cmpTime(">")
+	externalModels["(time.Time).Before"] = cmpTime("<")
 	// --- math ---------------------------------------------------------------------------------
 	externalModels["math.IsNaN"] = func(fr *Frame, callee *ssa.Function, args []Val, resT types.Type, st *State, reach string, pos token.Pos) Val {
 		c := fr.c
